@@ -19,6 +19,7 @@ type refStage struct {
 	pipeline string
 	deps     []string
 	unnamed  bool // no `name:` in the file: the stage is named after its task / pipeline (then name == that)
+	bare     bool // neither `task:` nor `pipeline:` is written (task and pipeline are both "")
 }
 
 type refCfg struct {
@@ -44,10 +45,16 @@ func (c refCfg) yaml() string {
 				fmt.Fprintf(&b, "    - name: %s\n", s.name)
 				first = "      "
 			}
-			if s.task != "" {
+			switch {
+			case s.task != "":
 				fmt.Fprintf(&b, "%stask: %s\n", first, s.task)
-			} else {
+			case s.pipeline != "":
 				fmt.Fprintf(&b, "%spipeline: %s\n", first, s.pipeline)
+			case s.bare:
+				// a stage that names neither a task nor a pipeline (only possible with a name of its own)
+				fmt.Fprintf(&b, "%sallow_failure: false\n", first)
+			default:
+				fmt.Fprintf(&b, "%spipeline: \"\"\n", first)
 			}
 			if len(s.deps) > 0 {
 				fmt.Fprintf(&b, "      depends_on: [%s]\n", strings.Join(s.deps, ", "))
@@ -228,6 +235,21 @@ func mutations(c refCfg, rng *rand.Rand) []refCfg {
 		m2.pipelines[p] = append(m2.pipelines[p], refStage{name: t0, task: c.tasks[len(c.tasks)-1]}, refStage{name: t0, task: t0, unnamed: true})
 		m2.mut = fmt.Sprintf("duplicate stage name in %s: explicit name %s then an unnamed stage defaulting to it", p, t0)
 		out = append(out, m2)
+	}
+	// a named stage that refers to nothing at all: an empty reference, or neither key
+	for _, p := range c.porder {
+		for i, st := range c.pipelines[p] {
+			if st.unnamed {
+				continue
+			}
+			for _, bare := range []bool{false, true} {
+				m := cloneCfg(c)
+				m.pipelines[p][i].task, m.pipelines[p][i].pipeline, m.pipelines[p][i].bare = "", "", bare
+				m.mut = fmt.Sprintf("stage %s.%s -> unknown pipeline (empty reference, bare=%v)", p, st.name, bare)
+				out = append(out, m)
+			}
+			break
+		}
 	}
 	for w := range c.watchers {
 		m := cloneCfg(c)
